@@ -120,7 +120,7 @@ type c12Witness struct {
 func init() {
 	core.Register(&core.Check{
 		ID:   "C12",
-		Rule: "schemas: C01's systematic list (atoms, atom pairs, wraps) extended by format atoms (built-in, opt-in and harness-registered validators), hostile and uncompilable patterns, ill-formed bounds (exclusive flag without bound, multipleOf<=0), each alone, merged with and wrapped around C01 atoms, discriminator schemas loaded through the real loader, plus PRNG-drawn random trees; values: C01's universe + directed boundary values + format/number edge values, as float64 and json.Number. Every case is executed in 7 modes (default, FailFast, MultiErrors, message customiser, MultiErrors+customiser, IsMatching, IsMatchingJSON<type>). Non-JSON numbers (NaN, +Inf, -Inf at the top level, as array item, property, nested property, additional property) against every atom and wrappers of numeric schemas: no mode panics, all modes agree. Directional: 96 object schemas with required x readOnly/writeOnly properties (plain, in arrays, nested, under allOf/oneOf/anyOf) x 31 values under VisitAsRequest and VisitAsResponse: fail-fast, multi-error, customised and multi+fail-fast agree with the plain verdict of that direction. Distinct = (canonical schema, canonical value); non-trivial = rejected in at least one mode (an error report exists to be checked).",
+		Rule: "schemas: C01's systematic list (atoms, atom pairs, wraps) extended by format atoms (built-in, opt-in and harness-registered validators), hostile and uncompilable patterns, ill-formed bounds (exclusive flag without bound, multipleOf<=0), each alone, merged with and wrapped around C01 atoms, discriminator schemas loaded through the real loader, plus PRNG-drawn random trees; values: C01's universe + directed boundary values + format/number edge values, as float64 and json.Number. Every case is executed in 7 modes (default, FailFast, MultiErrors, message customiser, MultiErrors+customiser, IsMatching, IsMatchingJSON<type>). Non-JSON numbers (NaN, +Inf, -Inf at the top level, as array item, property, nested property, additional property) against every atom and wrappers of numeric schemas: no mode panics, all modes agree. Directional: 96 object schemas with required x readOnly/writeOnly properties (plain, in arrays, nested, under allOf/oneOf/anyOf) x 31 values under VisitAsRequest and VisitAsResponse: fail-fast, multi-error, customised and multi+fail-fast agree with the plain verdict of that direction. Distinct = (canonical schema, canonical value); non-trivial = rejected in at least one mode (an error report exists to be checked). Property names that are not identifiers (a/b, t~x, ~0, ~1, empty, 0, %2F, $ref ...) are exercised at three depths.",
 		Assumptions: []string{
 			"pointer convention relied on: for SchemaField=required the pointer is the enclosing object plus the missing key and Value is the enclosing object; otherwise pointer resolves to Value",
 			"only the returned error itself and members of a returned MultiError are asserted (errors under Origin are relative)",
